@@ -22,6 +22,14 @@ type Clause struct {
 	Line  int
 }
 
+// GhostView: for a local slice variable, ghost arrays set_<name> (key -> member?) and pos_<name> (key -> index),
+// maintained by the executor at every definition of / append to the variable. Ghost state never flows into
+// program state: it is only readable from contract expressions.
+type GhostView struct {
+	Name string
+	Key  string // field of the element that serves as key
+}
+
 type LoopSpec struct {
 	Key        string // induction variable name (optionally name#k for the k-th loop with that variable), or "#<ordinal>"
 	Alias      string // `as <name>`: binds the loop's range index (or first induction phi) under this name
@@ -65,6 +73,7 @@ type FuncContract struct {
 	NoSafety bool
 	Assume   []*Clause // assumptions about the environment (listed in evidence)
 	Bits     int
+	Views    []GhostView // ghost set/position views of slice variables (Appendix B of DESIGN.md)
 	Cases    [][]*Clause // case splits applied to every postcondition obligation (each list must be exhaustive)
 }
 
@@ -108,7 +117,7 @@ var clauseKeywords = map[string]bool{
 	"func": true, "lemma": true, "axiom": true, "mode": true, "prelude": true, "requires": true, "ensures": true, "panics": true,
 	"maypanic": true, "modifies": true, "loop": true, "invariant": true, "decreases": true, "unroll": true, "witness": true,
 	"let": true, "postlet": true, "trusted": true, "inline": true, "pure": true, "use": true, "postuse": true, "opaque": true,
-	"havoc": true, "nosafety": true, "assume": true, "param": true, "loopmodifies": true, "looplet": true, "bits": true, "end": true, "macro": true, "cases": true,
+	"havoc": true, "nosafety": true, "assume": true, "param": true, "loopmodifies": true, "looplet": true, "bits": true, "end": true, "macro": true, "cases": true, "ghostview": true,
 }
 
 var tagRe = regexp.MustCompile(`^([a-z]+)(\[([A-Za-z0-9_,]+)\])?(\s+|$)`)
@@ -338,6 +347,13 @@ func (cs *Contracts) parseFile(file, pkg, src string) error {
 			fc.NoSafety = true
 		case "opaque":
 			fc.Opaque = append(fc.Opaque, strings.Fields(strings.ReplaceAll(r.text, ",", " "))...)
+		case "ghostview":
+			// ghostview <slice variable> by <field>
+			parts := strings.Fields(r.text)
+			if len(parts) != 3 || parts[1] != "by" {
+				return fmt.Errorf("%s:%d: expected: ghostview <var> by <field>", file, r.line)
+			}
+			fc.Views = append(fc.Views, GhostView{Name: parts[0], Key: parts[2]})
 		case "cases":
 			// cases a | b | c   : the alternatives are contract expressions
 			var alts []*Clause
